@@ -46,6 +46,10 @@ def analyse(base, chk, fname, variant="distinct"):
     label = fname.replace("filippo.io/edwards25519", "ed") + (" [one object passed for all same-typed arguments / slice elements]" if variant == "shared" else "")
     r, traces = events_of(base, chk, fname, variant)
     chk.used(base.prog, fname, "effects / event extraction (" + r.desc + ")")
+    notret = [p.outcome for p in r.paths if p.outcome[0] != "ret"]
+    if notret or not r.paths:
+        # a path the engine could not follow to the end has unknown effects: the facts below would be vacuous for it
+        chk.add(Ob("%s: every path is followed to its return (effects known)" % label, "error:%s" % (notret[:1],), 0, [fname], "effects"))
     summary = {"writes_outside_once": [], "table_access_before_do": [], "globals_read": set(), "once": set()}
     for evs in traces:
         done = set()
